@@ -131,6 +131,11 @@ def RoundRobin.run (rr : RoundRobin) (parts : List Int) : Nat → RoundRobin × 
     let (rr'', xs) := RoundRobin.run rr' parts n
     (rr'', x :: xs)
 
+/-- calls whose partition list changes from call to call (a Writer without a fixed Topic) -/
+def RoundRobin.runVar (rr : RoundRobin) : List (List Int) → List (Option Int)
+  | [] => []
+  | parts :: rest => let (rr', x) := rr.balance parts; x :: RoundRobin.runVar rr' rest
+
 /-- where a balancer is after `calls` calls with an `n`-partition list (what the test hook `VerifSetRoundRobinCalls`
 sets): normalised form, `count < chunk` -/
 def RoundRobin.placed (chunk : Int) (calls n : Nat) : RoundRobin :=
